@@ -621,7 +621,13 @@ class Unit:
                 key = it.name
                 if key in verify: mode = 'verify'
                 elif key in stub: mode = 'stub'
-                elif '**' in verify: mode = 'verify'
+                elif '**' in verify:
+                    # "**" = every function of the file, but only functions a contract names: a function the contracts
+                    # do not know (added by a change) has no postcondition, so verifying its callers against it would
+                    # turn a harmless "extract helper" edit into a failed obligation; that is undecided, not a violation
+                    if not (fspec and key in fspec.fns):
+                        raise LostAnchor('%s: function `%s` has no contract (new or renamed function)' % (repo_file, key))
+                    mode = 'verify'
                 elif '**' in stub: mode = 'stub'
                 else: continue
                 found.add(key)
@@ -634,7 +640,15 @@ class Unit:
                         key = pn + '::' + ch.name
                         if key in verify or (pn + '::*') in verify: chosen.append((ch, 'verify')); found.add(key); found.add(pn + '::*')
                         elif key in stub or (pn + '::*') in stub: chosen.append((ch, 'stub')); found.add(key); found.add(pn + '::*')
-                        elif '**' in verify: chosen.append((ch, 'verify'))
+                        elif '**' in verify:
+                            is_trait_impl = it.kind == 'impl' and ' for ' in it.name
+                            known = bool(fspec and key in fspec.fns)
+                            if not known and is_trait_impl:
+                                mo_t = re.match(r'impl(?:<[^>]*>)?\s+([A-Za-z_][A-Za-z0-9_]*)', it.name)
+                                known = bool(mo_t) and any((mo_t.group(1) + '::' + ch.name) in fs2.fns for fs2 in self.contracts.values())
+                            if not known:
+                                raise LostAnchor('%s: function `%s` has no contract (new or renamed function)' % (repo_file, key))
+                            chosen.append((ch, 'verify'))
                         elif '**' in stub: chosen.append((ch, 'stub'))
                     elif ch.kind in ('type', 'const'):
                         chosen.append((ch, 'plain'))
